@@ -115,6 +115,9 @@ class TwoEndedLink(link.Link):
         if (new is not None) and (self not in new.links):
             new.add_to_link(self)
 
+        # the vertex at the other end has a different neighbor now, too
+        self._invalidate_neighbor_caches()
+
     @property
     def v2(self) -> Vertex:
         """
